@@ -59,13 +59,81 @@ def model_to_dict(m):
     return out
 
 
+def hard_check(solver, timeout_ms):
+    """solver.check() (soft timeout set by the caller).  A watchdog calling ctx.interrupt() was tried and removed: it
+    does not stop z3's preprocessing of huge terms and made interpreter shutdown hang in Z3_del_context; queries over
+    large terms are instead sent to a killable external solver process (see solve)."""
+    try:
+        return solver.check()
+    except z3.Z3Exception:
+        return z3.unknown
+
+
+def solve_external(constraints, timeout_s=5.0):
+    """Status-only query in a separate z3 process that is KILLED at the limit.  For queries over huge nested terms
+    where z3's preprocessing neither honours its soft timeout nor reacts to interrupt().  Returns 'unsat'|'sat'|'unknown'."""
+    import subprocess
+    import tempfile
+
+    s = z3.Solver()
+    for c in constraints:
+        s.add(c)
+    txt = s.to_smt2()
+    with tempfile.NamedTemporaryFile("w", suffix=".smt2", delete=False, dir=os.environ.get("TMPDIR", "/tmp")) as f:
+        f.write(txt)
+        fn = f.name
+    try:
+        exe = "z3-new" if shutil_which("z3-new") else "z3"
+        r = subprocess.run([exe, f"-T:{int(timeout_s) + 1}", fn], capture_output=True, text=True, timeout=timeout_s + 3)
+        out = r.stdout.strip().splitlines()
+        if "(error" in r.stdout:
+            return "unknown"
+        return out[0] if out and out[0] in ("sat", "unsat", "unknown") else "unknown"
+    except subprocess.TimeoutExpired:
+        return "unknown"
+    finally:
+        try:
+            os.remove(fn)
+        except OSError:
+            pass
+
+
+def shutil_which(name):
+    import shutil
+
+    return shutil.which(name)
+
+
+BIG_QUERY_NODES = int(os.environ.get("VERIF_BIG_QUERY_NODES", "6000"))
+
+
+def dag_size(terms, cap):
+    seen = set()
+    stack = list(terms)
+    while stack and len(seen) <= cap:
+        e = stack.pop()
+        i = e.get_id()
+        if i in seen:
+            continue
+        seen.add(i)
+        stack.extend(e.children())
+    return len(seen)
+
+
 def solve(constraints, timeout_ms, tag=""):
+    constraints = list(constraints)
+    if dag_size(constraints, BIG_QUERY_NODES) > BIG_QUERY_NODES:
+        # large nested terms: z3's preprocessing may ignore both its soft timeout and interrupt(); decide the status in
+        # a separate solver process that is killed at the limit (no model: callers fall back to seeded candidates)
+        t0 = time.time()
+        st = solve_external(constraints, timeout_ms / 1000.0)
+        return Q(st, {} if st == "sat" else None, time.time() - t0, tag)
     s = z3.Solver()
     s.set("timeout", int(timeout_ms))
     for c in constraints:
         s.add(c)
     t0 = time.time()
-    r = s.check()
+    r = hard_check(s, timeout_ms)
     dt = time.time() - t0
     if r == z3.sat:
         return Q("sat", model_to_dict(s.model()), dt, tag)
